@@ -80,7 +80,7 @@ func runC09(c *Ctx) {
 			c.Check(seen[w], "C09-R1", "isMatch:handles "+strq(w), im.Decl.Pos(), "handled", "operator "+strq(w)+" has no case (falls to `return false`)")
 		}
 	}
-	if pm := c.MustFunc("C09-R1", "internal/config.parseMatchOperation"); pm != nil {
+	if pm := c.MustFunc("C09-R1", "internal/config.parseMatchOperation"); pm != nil && !c09ParseOperationByEvaluation(c, pm, opTok) {
 		n := 0
 		for _, sw := range findSwitches(pm.Decl.Body, func(s *ast.SwitchStmt) bool { return s.Tag != nil }) {
 			cases, deflt := switchCases(sw)
@@ -996,4 +996,62 @@ func c09BlocksAreNotEditedInPlace(c *Ctx, R string) {
 	}
 	c.Check(bad == "", R, "match/ignore block lists are never edited in place", badPos, itoa(n)+" uses inspected",
 		bad+" rewrites a list of match/ignore blocks (or rule{} blocks) that the loaded configuration still refers to: after the first entry was evaluated every later entry and check sees a different configuration")
+}
+
+// c09ParseOperationByEvaluation decides parseMatchOperation by evaluating it for the six operator words and
+// for words that are not operators, whatever way its table is written. It reports false (and nothing else)
+// when the function is outside what the evaluator reads; the syntactic reading of a switch then applies.
+func c09ParseOperationByEvaluation(c *Ctx, pm *FuncInfo, opTok map[string]token.Token) bool {
+	info := pm.Pkg.TypesInfo
+	sig := pm.Obj.Type().(*types.Signature)
+	if sig.Params().Len() != 1 || sig.Results().Len() != 2 {
+		return false
+	}
+	run := func(w string) (string, bool, bool) {
+		ev := &miniEval{info: info, prog: c.P, env: map[types.Object]mval{sig.Params().At(0): mStr(w)}, multi: true}
+		ctl := ev.block(pm.Decl.Body.List)
+		if ev.undec != "" || ctl.kind != 'r' || ctl.ret.k != mvRec {
+			return "", false, false
+		}
+		op, e := ctl.ret.rec["0"], ctl.ret.rec["1"]
+		if op.k != mvStr || (e.k != mvNil && e.k != mvRec) {
+			return "", false, false
+		}
+		return op.s, e.k == mvNil, true
+	}
+	words := []string{"<", "<=", "=", "!=", ">=", ">"}
+	others := []string{"", "==", "<>", "=<", "=>", "~", "<<", " <", "< ", "lt"}
+	type res struct {
+		got string
+		ok  bool
+	}
+	out := map[string]res{}
+	for _, w := range append(append([]string{}, words...), others...) {
+		got, ok, decided := run(w)
+		if !decided {
+			return false
+		}
+		out[w] = res{got, ok}
+	}
+	n := 0
+	for _, w := range words {
+		if _, known := opTok[w]; !known {
+			continue
+		}
+		r := out[w]
+		if r.ok {
+			n++
+		}
+		c.Check(r.ok && r.got == w, "C09-R1", "parseMatchOperation:"+strq(w), pm.Decl.Pos(), "identity", "operator word "+strq(w)+" parses as "+strq(r.got)+map[bool]string{true: "", false: " with an error"}[r.ok])
+	}
+	bad := ""
+	for _, w := range others {
+		if out[w].ok {
+			bad = w
+			break
+		}
+	}
+	c.Check(bad == "", "C09-R1", "parseMatchOperation:unknown operator is an error", pm.Decl.Pos(), "rejected", "unknown operator words are accepted ("+strq(bad)+")")
+	c.Check(n == 6, "C09-R1", "parseMatchOperation:six operators", pm.Decl.Pos(), "6", "operator count is "+itoa(n))
+	return true
 }
